@@ -384,6 +384,7 @@ theorem parseRest_val {st : State} {fo : Option (List Nat)} {z : Zone} {blk : Li
 theorem accepted_decode' (bytes : List Nat) (z : Zone) (h : parse bytes = .ok z) :
     (firstVersion bytes = some .V1 → z = decodeBlock 4 .V1 bytes none ∧ TypeRecsOk 4 bytes)
       ∧ (firstVersion bytes ≠ some .V1 → ∃ v2, secondVersion bytes = some v2
+          ∧ firstVersion bytes = some v2
           ∧ z = decodeBlock 8 v2 (bytes.drop (announcedLen 4 bytes)) z.rule
           ∧ TypeRecsOk 8 (bytes.drop (announcedLen 4 bytes))
           ∧ parseFooter (footerOf bytes) v2 = .ok z.rule) := by
@@ -415,17 +416,19 @@ theorem accepted_decode' (bytes : List Nat) (z : Zone) (h : parse bytes = .ok z)
     rw [hver] at hb hv1
     dsimp only at hb
     obtain ⟨⟨st2, c2⟩, hs2, hb⟩ := bind_eq_ok hb
-    simp only [P.ok.injEq, Prod.mk.injEq] at hb
+    obtain ⟨hvv, hb⟩ := ite_err_ok hb
+    simp only [Prod.mk.injEq] at hb
     obtain ⟨rfl, rfl⟩ := hb
     have sl2 := sliced_of_state hs2
     simp only [Bool.false_eq_true, if_false] at sl2
     refine ⟨fun hv => (by rw [hv1] at hv; cases hv), fun _ => ?_⟩
     have hfo : footerOf bytes = c2 := by unfold footerOf; rw [hb0]
     obtain ⟨a, b⟩ := parseRest_val (Or.inr rfl) sl2 hrest
-    refine ⟨st2.header.version, ?_, ?_, ?_, ?_⟩
+    refine ⟨st2.header.version, ?_, ?_, ?_, ?_, ?_⟩
     · unfold secondVersion
       rw [← List.drop_drop, ← e1]
       exact sl2.2.1
+    · rw [hv1, Classical.not_not.mp hvv]
     · rw [← e1]; exact a
     · rw [← e1]; exact b
     · rw [hfo]; exact hrule
@@ -433,17 +436,19 @@ theorem accepted_decode' (bytes : List Nat) (z : Zone) (h : parse bytes = .ok z)
     rw [hver] at hb hv1
     dsimp only at hb
     obtain ⟨⟨st2, c2⟩, hs2, hb⟩ := bind_eq_ok hb
-    simp only [P.ok.injEq, Prod.mk.injEq] at hb
+    obtain ⟨hvv, hb⟩ := ite_err_ok hb
+    simp only [Prod.mk.injEq] at hb
     obtain ⟨rfl, rfl⟩ := hb
     have sl2 := sliced_of_state hs2
     simp only [Bool.false_eq_true, if_false] at sl2
     refine ⟨fun hv => (by rw [hv1] at hv; cases hv), fun _ => ?_⟩
     have hfo : footerOf bytes = c2 := by unfold footerOf; rw [hb0]
     obtain ⟨a, b⟩ := parseRest_val (Or.inr rfl) sl2 hrest
-    refine ⟨st2.header.version, ?_, ?_, ?_, ?_⟩
+    refine ⟨st2.header.version, ?_, ?_, ?_, ?_, ?_⟩
     · unfold secondVersion
       rw [← List.drop_drop, ← e1]
       exact sl2.2.1
+    · rw [hv1, Classical.not_not.mp hvv]
     · rw [← e1]; exact a
     · rw [← e1]; exact b
     · rw [hfo]; exact hrule
@@ -466,67 +471,31 @@ theorem validate_drop_rule (tr : List Transition) (ty : List Ltt) (lp : List Lea
       · rename_i h3
         rw [if_neg h3]
 
-theorem parseFooter_nl (v : Version) : parseFooter [10] v = .ok none := by
-  cases v <;> decide
-
-theorem parseRest_drop_footer {st : State} {f : List Nat} {z : Zone} (h : parseRest st (some f) = .ok z) :
-    parseRest st (some [10]) = .ok { z with rule := none } := by
-  unfold parseRest at h ⊢
-  obtain ⟨tr, htr, h⟩ := bind_eq_ok h
-  obtain ⟨ty, hty, h⟩ := bind_eq_ok h
-  obtain ⟨lp, hlp, h⟩ := bind_eq_ok h
-  rw [htr, hty, hlp]
-  simp only [P.bind_ok]
-  split at h
-  · cases h
-  · rename_i hb
-    rw [if_neg hb]
-    obtain ⟨r, hr, h⟩ := bind_eq_ok h
-    unfold Zone.new at h ⊢
-    obtain ⟨u, hu, h⟩ := bind_eq_ok h
-    simp only [P.ok.injEq] at h
-    subst h
-    simp only [parseFooterOpt, parseFooter_nl, P.bind_ok]
-    rw [validate_drop_rule tr ty lp r (by cases u; exact hu)]
-    rfl
-
-/-- a file cut right after the first newline of its footer is refused or read as the SAME zone without
-its rule — never as anything else -/
+/-- since the repair of F36: a file cut right after the first newline of its footer is REFUSED
+(its footer would be the single byte `"\n"`) -/
 theorem trunc_footer_newline' (bytes : List Nat) (z : Zone) (h : parse bytes = .ok z) (k : Nat)
     (hk : k < bytes.length) (he : k + (footerOf bytes).length = bytes.length + 1) :
-    parse (bytes.take k) = .err ∨ parse (bytes.take k) = .ok { z with rule := none } := by
+    parse (bytes.take k) = .err := by
   have hsplit : bytes.take k ++ bytes.drop k = bytes := List.take_append_drop k bytes
   have hql : (bytes.drop k).length = bytes.length - k := by simp
   have hq : bytes.drop k ≠ [] := by
     intro e
     have := congrArg List.length e
     simp at this; omega
-  have h0 := h
   rw [← hsplit] at h
   rcases trunc_cases _ _ z hq h with h1 | ⟨st, c2, hp, hfull⟩
-  · exact Or.inl h1
-  · right
+  · exact h1
+  · apply err_of_not_ok
+    intro z' hz'
+    rw [parse_of_blocks hp] at hz'
+    obtain ⟨r, hr⟩ := parseRest_ok_footer hz'
     rw [hsplit] at hfull
     have hfo : footerOf bytes = c2 ++ bytes.drop k := by unfold footerOf; rw [hfull]
     have hlen : c2.length = 1 := by
       have := congrArg List.length hfo
       rw [List.length_append, hql] at this
       omega
-    have hhead : (footerOf bytes).head? = some 10 := by
-      have hne : firstVersion bytes ≠ some .V1 := by
-        intro hv
-        rcases parseBlocks_footer hfull with ⟨-, e⟩ | ⟨hv', -⟩
-        · cases e
-        · exact hv' hv
-      exact ((accepted_layout' bytes z h0).2 hne).2.1
-    obtain ⟨b, rfl⟩ : ∃ b, c2 = [b] := by
-      match c2, hlen with
-      | [b], _ => exact ⟨b, rfl⟩
-    rw [hfo] at hhead
-    simp only [List.cons_append, List.head?_cons, Option.some.injEq] at hhead
-    subst hhead
-    rw [parse_of_blocks hp]
-    rw [parse_of_blocks hfull] at h0
-    exact parseRest_drop_footer h0
+    rw [footer_short' c2 _ (by omega)] at hr
+    cases hr
 
 end Chrono.Proofs.TzDecode
